@@ -190,7 +190,20 @@ class CertFam(Family):
                 pool = honest_qcs + (made_qcs[-3:] if rng.random() < 0.5 else [])
                 att = {i: rng.choice(pool) for i in ids}
                 kind = rng.choice(["honest", "honest", "honest", "dup", "dup-apart", "sub", "swap-msg", "relabel-view", "wrong-qc", "nil", "via-create",
-                                   "count-mismatch", "count-mismatch"])
+                                   "count-mismatch", "count-mismatch", "genesis-twins", "genesis-twins"])
+                twin = None
+                if kind == "genesis-twins":
+                    # every signer attests the genesis QC, either the unsigned one or its twin with a
+                    # present-but-empty signature; the proposal's block carries the other one
+                    if "qE" not in made_qcs:
+                        self._sigset(L, scheme, "eS", [])
+                        L.append("qc qE sig=eS view=0 hash=G")
+                        L.append(f"block BE parent=G view={v + 3} proposer={R()} qc=qE")
+                        L.append(f"block BG parent=G view={v + 3} proposer={R()} qc=genesis")
+                        made_qcs.append("qE")
+                    twin = rng.choice(["genesis", "qE"])
+                    att = {i: twin for i in ids}
+                    kind = "honest"
                 for i in ids:
                     L.append(f"sign {i} tmo:{i}:{av}:{att[i]} {nm}m{i}")
                 use = ids[:q]
@@ -244,7 +257,10 @@ class CertFam(Family):
                     self._sigset(L, scheme, nm + "s", pairs)
                     L.append(f"agg {nm} sig={nm}s view={view} qcs=" + (",".join(f"{i}:{qcs[i]}" for i in qcs) or "-"))
                 L.append(f"verify-agg {R()} {nm}")
-                if rng.random() < 0.5:
+                if twin is not None:
+                    L.append(f"verify-any {R()} BE {nm}")
+                    L.append(f"verify-any {R()} BG {nm}")
+                elif rng.random() < 0.5:
                     L.append(f"verify-any {R()} {rng.choice([b for b, _ in views])} {nm}")
             else:
                 # raw crypto ops
